@@ -14,7 +14,11 @@ RULE = ("random command trees (depth <= 3) mixing short-only / long-only / short
         "next_line_help, possible values with help and hidden values, hidden subcommands, flag subcommands, the four "
         "global settings; every name is a unique marker.  x widths (0..200 exhaustively for small trees, boundary widths "
         "otherwise) x {short, long, usage, -h / --help / help <path> at every level}.  A case is non-trivial when the "
-        "rendered screen has at least one row or the usage line more than one token; distinct = distinct case text.")
+        "rendered screen has at least one row or the usage line more than one token; distinct = distinct case text.  Round 3 adds: "
+        "argument groups (required or not, multiple), requires rules towards arguments and groups (chains, conditional rules), "
+        "subcommand_negates_reqs / args_conflicts_with_subcommands / subcommand_required / allow_external_subcommands, subcommand_value_name, "
+        "next_help_heading between the Command::arg calls (with resets) and subcommand_help_heading at every level, and custom help "
+        "templates made of titled blocks for {options} / {positionals} / {subcommands} (any order, repeated) or {all-args}, with unknown tags.")
 TRUSTED = [
     "Coq 8.16.1 kernel (coqc); no native_compute; theorems C12_* are 'Closed under the global context'",
     "extraction: ExtrOcamlBasic only, no Extract Constant; OCaml driver ocaml/help_driver.ml (spec reader, printing, display_width = byte length)",
@@ -24,7 +28,9 @@ TRUSTED = [
 ]
 ASSUMPTIONS = [
     "64-bit usize; plain styles; default help template; no term-size detection (term_width is set explicitly)",
-    "domain of the model: no argument groups / requires / next_help_heading / subcommand_help_heading / subcommand visible aliases / flatten_help (the generators stay inside it); env, defaults, (short) aliases, possible values in spec_vals and global arguments are modelled",
+    "domain of the model: no flatten_help, override_usage / override_help, Arg::group on the argument side, subcommand visible aliases (the generators stay inside it); argument groups, requires, the subcommand usage forms, next_help_heading, subcommand_help_heading, subcommand_value_name, custom help templates (tag dispatch; the texts of name / bin / version / author / before- / after-help are not modelled), env, defaults, (short) aliases, possible values in spec_vals and global arguments are modelled",
+    "refs_ok (hypothesis of C12_padding_safe, C12_render_total, C12_usage_*, C12_template_total): group ids unique, group members are arguments, every id named by a requires rule exists -- what debug_asserts.rs checks before any rendering",
+    "the generators keep `hide`n arguments out of groups and out of requires targets: a hidden member of a listed group is printed by format_group (observation C12_usage_hidden_group_member_shown, replayed on the real crate)",
     "the help-level theorems on the parser model (C12_help_flag_*_level) quantify over chains of subcommand names/aliases directly followed by the help flag (class help_chain); their hypothesis long_help_at/short_help_at (the level's --help / -h is a value-less Help-action flag) is checked by computation on the example, not derived from the build",
     "C12_padding_safe assumes every rendered left column is at most 65 000 columns wide (observation N: core::fmt limits run-time widths to u16 on rustc >= 1.87)",
     "names are ASCII in generated cases (columns = characters = bytes)",
@@ -1183,8 +1189,9 @@ def classify_known(stream, case, impl, failure):
     return None
 
 
-TECHNIQUE = ("Coq proof (column arithmetic, visibility, section assembly, spec_vals non-interference of the help writer; help-flag "
-             "dispatch along a subcommand chain on the parser model) + extracted-model/implementation correspondence")
+TECHNIQUE = ("Coq proof (column arithmetic, visibility, section assembly, spec_vals non-interference of the help writer; usage line over the "
+             "requirement graph with groups; tag dispatch of custom templates; help-flag dispatch along a subcommand chain on the parser model) "
+             "+ extracted-model/implementation correspondence")
 LEVEL_TEXT = ("Machine-checked theorems (Coq 8.16, closed under the global context) about a model of help_template.rs / "
               "usage.rs that mirrors the Rust functions one by one: every unsigned subtraction and run-time format width in "
               "write_args / align_to_about / help / subcmd succeeds for every command, every width and every display-width "
@@ -1196,13 +1203,23 @@ LEVEL_TEXT = ("Machine-checked theorems (Coq 8.16, closed under the global conte
               "defaults render the same screen in every mode at every width; every row carries exactly spec_vals of its argument and every "
               "visible possible value is listed; the usage line mentions every required positional; global arguments reach every "
               "subcommand level; and on the parser model try_get_matches_from on `bin name_1 .. name_k (--help|-h) ..` (names/aliases of "
-              "nested subcommands, class help_chain) returns the DisplayHelp error of the level at the end of the chain.  The "
+              "nested subcommands, class help_chain) returns the DisplayHelp error of the level at the end of the chain.  Round 3: the usage "
+              "line follows usage.rs write_args in full -- the unrolled requirement graph (the parser model's required_graph / "
+              "unroll_arg_requires / unroll_args_in_group), required groups as <a|b> with members not repeated, the [OPTIONS] rule, the second "
+              "line under subcommand_negates_reqs / args_conflicts_with_subcommands, subcommand_value_name -- and never panics for commands "
+              "whose references resolve (refs_ok), every piece comes from a requirement, a visible positional or a listed group, a hidden "
+              "argument that no rule demands has no piece in either form (incl. the optional hidden last positional), every required argument "
+              "is mentioned (own piece, or inside the <a|b> of a listed group it belongs to); custom help templates: write_templated_help is "
+              "modelled tag by tag and, for EVERY template text, rendering is total, every row any tag writes comes from a shown argument or "
+              "a non-hidden subcommand, and {options} / {positionals} / {subcommands} / {all-args} each list every visible item of their kind; "
+              "next_help_heading / subcommand_help_heading decide the section an item is listed in.  The "
               "model is tied to clap_builder on every run by rendering generated command trees with the real crate at widths "
               "0..200 (debug and release) and comparing sections, rows, help columns and usage tokens with the extracted model; "
               "an independent python oracle written from the property text checks the rendered text itself.")
 LEVEL_NOTE = ("Trusted: Coq kernel, extraction, OCaml driver, Rust harness, generators; core::fmt, BTreeMap, f32 comparison "
-              "(swept each run), textwrap (C20) and unicode-width are modelled or abstract; the model's domain excludes groups, "
-              "requires (usage forms <a|b>), next_help_heading / subcommand_help_heading, subcommand aliases in help, flatten_help, "
-              "custom templates, non-ASCII names.  Differential / oracle only: byte-exact layout and wrapped text, usage forms under "
-              "subcommand_negates_reqs / args_conflicts_with_subcommands, help chains with flags or values between the names.  "
-              "Observation (not a defect fix): a default value naming a hidden possible value is printed in [default: ..].")
+              "(swept each run), textwrap (C20) and unicode-width are modelled or abstract; the model's domain excludes flatten_help, "
+              "usage / help overrides, subcommand aliases in help, the texts of the template tags name / bin / version / author / before- / "
+              "after-help, non-ASCII names.  Differential / oracle only: byte-exact layout and wrapped text, help chains with flags or values "
+              "between the names; the hypothesis long_help_at / short_help_at of the help-flag theorems is still checked by computation (it "
+              "cannot follow from validity alone: a subcommand may be named `--help`).  Observations (not defect fixes): a default value naming "
+              "a hidden possible value is printed in [default: ..]; a hidden member of a listed group is printed in the usage line <a|b>.")
